@@ -181,12 +181,12 @@ theorem viewOK_of {th : Th} {v : TV} {g : Nat} (htv : th.tv = some (v, g))
 
 theorem canRead_info {s : State} {i : Nat} {th : Th} {a : Abs} (hok : ThOK i s.sh th a)
     (hc : a.canRead = true) :
-    a.wl = false ∧ a.wp = false ∧
+    a.wl = false ∧ a.wp = false ∧ a.wc = false ∧
     ((∃ v g, th.tv = some (v, g) ∧ v ≠ .raw ∧ NonRawFacts s.sh th g) ∨
      (∃ g, th.tv = some (.raw, g) ∧ s.sh.t = .raw ∧ g = s.sh.tg ∧ (s.sh.w = some i ∨ i ∈ s.sh.r))) := by
   simp only [Abs.canRead, Bool.and_eq_true, Bool.or_eq_true, beq_iff_eq, Bool.not_eq_true'] at hc
-  obtain ⟨⟨hk, hwl⟩, hwp⟩ := hc
-  refine ⟨hwl, hwp, ?_⟩
+  obtain ⟨⟨⟨hk, hwl⟩, hwp⟩, hwc⟩ := hc
+  refine ⟨hwl, hwp, hwc, ?_⟩
   have hkn := hok.know
   unfold KnowOK at hkn
   rcases hk with hk | ⟨hk, hlk⟩
@@ -212,7 +212,7 @@ theorem conflict_read {b : Acc} {i : Nat} {f : Fld} {atm : Bool} {sh : Sh}
 theorem read_writes_hb {s : State} {i : Nat} {th : Th} {a : Abs} (hG : Glob s) (hok : ThOK i s.sh th a)
     (hc : a.canRead = true) : ∀ b ∈ s.sh.hist, b.wr = true → b.tid ≠ i → b.id ∈ th.hb := by
   intro b hb hbw hbi
-  obtain ⟨_, _, h | h⟩ := canRead_info hok hc
+  obtain ⟨_, _, _, h | h⟩ := canRead_info hok hc
   · obtain ⟨v, g, _, _, _, _, h3⟩ := h
     exact h3 b hb hbw
   · obtain ⟨g, _, ht, _, hl⟩ := h
@@ -224,7 +224,7 @@ theorem read_writes_hb {s : State} {i : Nat} {th : Th} {a : Abs} (hG : Glob s) (
 /-- under `canRead`, the fields l and p both carry the generation of the `t` last loaded -/
 theorem read_vals {s : State} {i : Nat} {th : Th} {a : Abs} (hG : Glob s) (hok : ThOK i s.sh th a)
     (hc : a.canRead = true) : ∃ v g, th.tv = some (v, g) ∧ s.sh.l = g ∧ s.sh.p = g := by
-  obtain ⟨hwl, hwp, h | h⟩ := canRead_info hok hc
+  obtain ⟨hwl, hwp, _, h | h⟩ := canRead_info hok hc
   · obtain ⟨v, g, h1, _, h2, h3, _⟩ := h
     refine ⟨v, g, h1, ?_⟩
     have hp : s.sh.t = .parsed := by
@@ -240,18 +240,18 @@ theorem read_vals {s : State} {i : Nat} {th : Th} {a : Abs} (hG : Glob s) (hok :
     have hfl : s.sh.wl = false ∧ s.sh.wp = false := by
       rcases hl with hl | hl
       · have := hok.wlw (hok.hW.mpr hl)
-        rw [this.1, this.2]; exact ⟨hwl, hwp⟩
+        rw [this.1, this.2.1]; exact ⟨hwl, hwp⟩
       · have hn : s.sh.w = none := by
           cases hw : s.sh.w with
           | none => rfl
           | some j => have := hG.excl j hw; rw [this] at hl; cases hl
-        exact hG.wfree hn
+        exact ⟨(hG.wfree hn).1, (hG.wfree hn).2.1⟩
     rw [hfl.1] at e2; rw [hfl.2] at e3
     rw [hg, e1]; exact ⟨e2, e3⟩
 
 theorem canRead_rdRel {s : State} {i : Nat} {th : Th} {a : Abs} (hok : ThOK i s.sh th a)
     (hc : a.canRead = true) (ht : s.sh.t = .raw) : s.sh.w = some i ∨ i ∈ s.sh.r := by
-  obtain ⟨_, _, h | h⟩ := canRead_info hok hc
+  obtain ⟨_, _, _, h | h⟩ := canRead_info hok hc
   · obtain ⟨v, g, _, _, h2, _⟩ := h
     exact absurd ht h2
   · obtain ⟨g, _, _, _, hl⟩ := h
@@ -279,13 +279,13 @@ theorem inv_plain_read {s : State} {i : Nat} {th th' : Th} {a : Abs} {f : Fld}
       · rw [hx]; exact List.mem_cons_self
       · exact List.mem_cons_of_mem _ hx
   · refine ⟨a, hs, ?_⟩
-    apply hok.read_step (sh' := s.sh.record th.hb (mkAcc i f false false s.sh)) (acc := mkAcc i f false false s.sh) rfl rfl rfl rfl rfl rfl rfl rfl htv
+    apply hok.read_step (sh' := s.sh.record th.hb (mkAcc i f false false s.sh)) (acc := mkAcc i f false false s.sh) rfl rfl rfl rfl rfl rfl rfl rfl rfl htv
     · intro x hx; rw [hhb]; exact List.mem_cons_of_mem _ hx
     · exact hfa
     · intro h; rw [hmv]; exact hok.mread h
     · exact hlv
     · exact hview
   · intro j thj aj _ _ hj
-    exact hj.frame_read (sh' := s.sh.record th.hb (mkAcc i f false false s.sh)) (acc := mkAcc i f false false s.sh) rfl rfl rfl rfl rfl rfl rfl rfl
+    exact hj.frame_read (sh' := s.sh.record th.hb (mkAcc i f false false s.sh)) (acc := mkAcc i f false false s.sh) rfl rfl rfl rfl rfl rfl rfl rfl rfl
 
 end SonicSpec.RW
